@@ -25,6 +25,7 @@ import SoyVerif.Lemmas.JsParseExpr
 import SoyVerif.Lemmas.JsParseLex
 import SoyVerif.Lemmas.JsParseStmt
 import SoyVerif.Props.C04d
+import SoyVerif.Props.C04f
 
 namespace SoyVerif.Props.C14c
 open SoyVerif SoyVerif.Spec SoyVerif.Spec.JsParse
@@ -2235,5 +2236,248 @@ theorem jsparse_render_stmts (ss : JsStmts) (ind : Nat) (h : ImgSs ss) :
   simp only [pre, Option.map_some, List.append_nil]
   rw [parseStmts_tk _ (wfSs_plain ss h)]
   exact readSs_plain ss h
+
+/-! ## the canonical form has the same meaning -/
+
+section
+open SoyVerif.Spec.JsStmt
+open SoyVerif.Spec.JsSemRef (JVal JOut JEnv eval)
+variable (F : Bytes → List Expr → JVal → JOut) (G : Bytes → JVal → JOut) (fuel : Nat)
+
+theorem applyCalls_canon (hF : ∀ d : Directive, F d.name (canonArgs d) = F d.name d.args) :
+    ∀ (ds : List Directive) (o : JOut), applyCalls F (ds.map canonDir) o = applyCalls F ds o := by
+  intro ds
+  induction ds with
+  | nil => intro o; rfl
+  | cons d r ih =>
+    intro o
+    simp only [applyCalls, List.map_cons, List.foldl_cons, canonDir, hF d] at ih ⊢
+    exact ih _
+
+mutual
+  theorem canon_execStmt (hF : ∀ d : Directive, F d.name (canonArgs d) = F d.name d.args) :
+      ∀ (s : JsStmt) (env : JEnv), execStmt F G fuel (canonS s) env = execStmt F G fuel s env
+    | .appendLit _ _, _ => by simp [canonS]
+    | .append b e ds, env => by
+      unfold canonS
+      split
+      · simp [execStmt, applyCalls, eval, withVal]
+      · simp [execStmt, applyCalls_canon F hF]
+    | .var x e, env => by
+      unfold canonS
+      split
+      · simp [execStmt, eval, withVal]
+      · simp [execStmt]
+      · rfl
+    | .varEmpty _, _ => by simp [canonS]
+    | .ifs conds, env => by simp [canonS, execStmt, canon_execConds hF conds env]
+    | .varLength _ _, _ => by simp [canonS]
+    | .varIndex _ _ _, _ => by simp [canonS]
+    | .forUp i lim body, env => by
+      have : execStmts F G fuel (canonSs body) = execStmts F G fuel body := funext (canon_execStmts hF body)
+      simp [canonS, execStmt, this]
+    | .ifPos lim body els, env => by
+      simp [canonS, execStmt, canon_execStmts hF body env, canon_execStmts hF els env]
+    | .forStep i lim step idx init body, env => by
+      have : execStmts F G fuel (canonSs body) = execStmts F G fuel body := funext (canon_execStmts hF body)
+      simp [canonS, execStmt, this]
+    | .switchS e cases, env => by
+      have : ∀ v, execCases F G fuel (canonCases cases) v env = execCases F G fuel cases v env :=
+        fun v => canon_execCases hF cases v env
+      simp [canonS, execStmt, this]
+    | .call _ _ _ _, _ => by simp [canonS]
+  theorem canon_execStmts (hF : ∀ d : Directive, F d.name (canonArgs d) = F d.name d.args) :
+      ∀ (ss : JsStmts) (env : JEnv), execStmts F G fuel (canonSs ss) env = execStmts F G fuel ss env
+    | .nil, _ => rfl
+    | .cons s r, env => by
+      have : ∀ env', execStmts F G fuel (canonSs r) env' = execStmts F G fuel r env' := canon_execStmts hF r
+      simp [canonSs, execStmts, canon_execStmt hF s env, this]
+  theorem canon_execConds (hF : ∀ d : Directive, F d.name (canonArgs d) = F d.name d.args) :
+      ∀ (conds : JsConds) (env : JEnv), execConds F G fuel (canonConds conds) env = execConds F G fuel conds env
+    | .nil, _ => rfl
+    | .els body, env => by simp [canonConds, execConds, canon_execStmts hF body env]
+    | .cons c body rest, env => by
+      simp [canonConds, execConds, canon_execStmts hF body env, canon_execConds hF rest env]
+  theorem canon_execCases (hF : ∀ d : Directive, F d.name (canonArgs d) = F d.name d.args) :
+      ∀ (cases : JsCases) (v : JVal) (env : JEnv), execCases F G fuel (canonCases cases) v env = execCases F G fuel cases v env
+    | .nil, _, _ => rfl
+    | .dflt body, v, env => by simp [canonCases, execCases, canon_execStmts hF body env]
+    | .cons labels body rest, v, env => by
+      simp [canonCases, execCases, canon_execStmts hF body env, canon_execCases hF rest v env]
+end
+
+/-- the canonical form of a statement list (what the grammar reads) runs exactly as the statement list — for every
+    library-function oracle `F` that looks at the literal arguments of a directive only (not at their source positions,
+    and reads `|truncate:n` as `|truncate:n,true`, which is what the generator writes) -/
+theorem canon_exec (hF : ∀ d : Directive, F d.name (canonArgs d) = F d.name d.args) (ss : JsStmts) (env : JEnv) :
+    execStmts F G fuel (canonSs ss) env = execStmts F G fuel ss env :=
+  canon_execStmts F G fuel hF ss env
+
+end
+
+/-! # functions and files -/
+
+open SoyVerif.Props.C04f (renderFunc)
+
+def sOptSb : Bytes := b!"opt_sb"
+def sOptIj : Bytes := b!"opt_ijData"
+
+/-- `opt_data = opt_data || {};` -/
+def optDefault : PS := .expr (.assign .set (.ident sOptData) (.bin .or (.ident sOptData) (.obj .nil)))
+
+def plainBody (f : JsFunc) : PStmts :=
+  if f.optional then
+    .cons optDefault (.cons (.var [(sOutput, .str [])]) (PStmts.snoc (plainSs f.body) (.ret (.ident sOutput))))
+  else .cons (.var [(sOutput, .str [])]) (PStmts.snoc (plainSs f.body) (.ret (.ident sOutput)))
+
+def plainF (f : JsFunc) : PTop := .func (plainQ f.name) [sOptData, sOptSb, sOptIj] (plainBody f)
+
+def canonF (f : JsFunc) : JsFunc := ⟨f.name, f.optional, canonSs f.body⟩
+
+/-- a function of the image: a dotted name, statements of the image -/
+def ImgF (f : JsFunc) : Prop := QName f.name ∧ ImgSs f.body
+
+theorem lex_sig (rest : Bytes) :
+    jsLex (32 :: 61 :: 32 :: (b!"function" ++ 40 :: (sOptData ++ 44 :: 32 :: (sOptSb ++ 44 :: 32 :: (sOptIj ++ 41 :: 32 :: 123 :: rest))))) =
+      pre [.p b!"=", .id b!"function", .p b!"(", .id sOptData, .p b!",", .id sOptSb, .p b!",", .id sOptIj, .p b!")", .p b!"{"]
+        (jsLex rest) := by
+  rw [lex_sp, lex_set_sp, lex_ident (g := b!"function") ⟨_, _, rfl, rfl, by decide⟩ (sep1_cons rfl _), lex_lparen,
+    lex_ident (g := sOptData) ⟨_, _, rfl, rfl, by decide⟩ (sep1_cons rfl _), lex_comma, lex_sp,
+    lex_ident (g := sOptSb) ⟨_, _, rfl, rfl, by decide⟩ (sep1_cons rfl _), lex_comma, lex_sp,
+    lex_ident (g := sOptIj) ⟨_, _, rfl, rfl, by decide⟩ (sep1_cons rfl _), lex_rparen, lex_sp, lex_lbrace]
+  simp [pre_pre]
+
+theorem lex_optDefault (rest : Bytes) :
+    jsLex (sOptData ++ 32 :: 61 :: 32 :: (sOptData ++ 32 :: 124 :: 124 :: 32 :: 123 :: 125 :: 59 :: rest)) =
+      pre (tkS optDefault) (jsLex rest) := by
+  rw [lex_ident (g := sOptData) ⟨_, _, rfl, rfl, by decide⟩ (sep1_cons rfl _), lex_sp, lex_set_sp,
+    lex_ident (g := sOptData) ⟨_, _, rfl, rfl, by decide⟩ (sep1_cons rfl _), lex_sp, lex_or_sp, lex_lbrace, lex_rbrace, lex_semi]
+  simp [pre_pre, optDefault, tkS, tk, tkProps, AsgOp.tok, BinOp.sym]
+
+theorem lex_varOutput (rest : Bytes) :
+    jsLex (118 :: 97 :: 114 :: 32 :: (sOutput ++ 32 :: 61 :: 32 :: 39 :: 39 :: 59 :: rest)) =
+      pre (tkS (.var [(sOutput, .str [])])) (jsLex rest) := by
+  rw [lexk_var, lex_ident (g := sOutput) ⟨_, _, rfl, rfl, by decide⟩ (sep1_cons rfl _), lex_sp, lex_set_sp, lex_emptyStr, lex_semi]
+  simp [pre_pre, tkS, tkDecls, tkDeclsTail, tk]
+
+theorem lex_retOutput (rest : Bytes) :
+    jsLex (114 :: 101 :: 116 :: 117 :: 114 :: 110 :: 32 :: (sOutput ++ 59 :: rest)) =
+      pre (tkS (.ret (.ident sOutput))) (jsLex rest) := by
+  rw [lexk_return, lex_ident (g := sOutput) ⟨_, _, rfl, rfl, by decide⟩ (sep1_cons rfl _), lex_semi]
+  simp [pre_pre, tkS, tk]
+
+/-- the tokens of the text of a function -/
+theorem lexF (f : JsFunc) (ind : Nat) (h : ImgF f) (rest : Bytes) :
+    jsLex (printPieces (renderFunc false ind f) ++ rest) = pre (tkTop (plainF f)) (jsLex rest) := by
+  have hs := lex_sig
+  have ho := lex_optDefault
+  have hv := lex_varOutput
+  have hr := lex_retOutput
+  simp only [sOptData, sOptSb, sOptIj, sOutput, List.cons_append, List.nil_append] at hs ho hv hr
+  have hq : ∀ r, jsLex (f.name ++ 32 :: r) = pre (tk (plainQ f.name)) (jsLex (32 :: r)) :=
+    fun r => lex_qname h.1 (sep1_cons rfl _)
+  unfold renderFunc
+  cases hopt : f.optional
+  · simp only [printPieces_append, printPieces_cons, printPieces_nil, Piece.print, SoyVerif.Model.JsGen.sigTail,
+      List.append_assoc, List.cons_append, List.nil_append, List.append_nil, Bool.false_eq_true, if_false]
+    rw [lex_spaces, lex_nl, lex_spaces, hq, hs, lex_nl, lex_spaces, hv, lex_nl, lexSs f.body (ind + 1) h.2, lex_spaces, hr, lex_nl,
+      lex_spaces, lex_rbrace, lex_semi, lex_nl]
+    simp [pre_pre, plainF, plainBody, hopt, tkTop, tkParams, tkParamsTail, tkSs, tkSs_snoc, sOptData, sOptSb, sOptIj, sOutput]
+  · simp only [printPieces_append, printPieces_cons, printPieces_nil, Piece.print, SoyVerif.Model.JsGen.sigTail,
+      List.append_assoc, List.cons_append, List.nil_append, List.append_nil, if_true]
+    rw [lex_spaces, lex_nl, lex_spaces, hq, hs, lex_nl, lex_spaces, ho, lex_nl, lex_spaces, hv, lex_nl,
+      lexSs f.body (ind + 1) h.2, lex_spaces, hr, lex_nl, lex_spaces, lex_rbrace, lex_semi, lex_nl]
+    simp [pre_pre, plainF, plainBody, hopt, tkTop, tkParams, tkParamsTail, tkSs, tkSs_snoc, sOptData, sOptSb, sOptIj, sOutput]
+
+theorem isQ_foldl : ∀ (segs : List Bytes) (acc : PE), isQ acc = true → isQ (segs.foldl PE.member acc) = true
+  | [], _, h => h
+  | s :: r, acc, h => isQ_foldl r (.member acc s) (by simpa [isQ] using h)
+
+theorem isQ_plainQ {q : Bytes} (h : QName q) : isQ (plainQ q) = true := by
+  obtain ⟨g, segs, e, _, hr, _⟩ := h
+  unfold plainQ
+  rw [e]
+  exact isQ_foldl segs _ (by simp [isQ, hr])
+
+theorem wfF (f : JsFunc) (h : ImgF f) : WfTop (plainF f) := by
+  have hb := wfSs_snoc _ (.ret (.ident sOutput)) (wfSs_plain f.body h.2) (by simp only [WfS, Wf]; decide)
+  have hv : WfS (.var [(sOutput, .str [])]) := by simp only [WfS, WfDecls, Wf]; exact ⟨by simp, by decide, trivial, trivial⟩
+  have ho : WfS optDefault := by
+    simp only [optDefault, WfS, Wf, WfProps, isRef, PE.lvl, BinOp.lvl, headTok]
+    exact ⟨⟨by decide, trivial, ⟨by decide, trivial, by omega, by omega⟩⟩, by simp⟩
+  simp only [plainF, WfTop]
+  refine ⟨isQ_plainQ h.1, by decide, ?_⟩
+  unfold plainBody
+  split
+  · simp only [WfSs]; exact ⟨ho, hv, hb⟩
+  · simp only [WfSs]; exact ⟨hv, hb⟩
+
+theorem plainS_ne_ret (s : JsStmt) (e : PE) : plainS s ≠ .ret e := by
+  cases s with
+  | ifs conds =>
+    simp only [plainS]
+    cases conds with
+    | nil => simp [plainConds]
+    | els _ => simp [plainConds]
+    | cons c b r => cases r <;> simp [plainConds]
+  | _ => simp [plainS]
+
+theorem readRet_plain : ∀ (ss : JsStmts), ImgSs ss → readRet (PStmts.snoc (plainSs ss) (.ret (.ident sOutput))) = some (canonSs ss)
+  | .nil, _ => by simp [plainSs, PStmts.snoc, readRet, canonSs]
+  | .cons s r, h => by
+    simp only [ImgSs] at h
+    simp only [plainSs, PStmts.snoc]
+    rw [readRet]
+    · simp [readS_plain s h.1, readRet_plain r h.2, canonSs]
+    · intro g hs
+      exact absurd hs (plainS_ne_ret s _)
+
+theorem readF (f : JsFunc) (h : ImgF f) : readFunc (plainQ f.name) [sOptData, sOptSb, sOptIj] (plainBody f) = some (canonF f) := by
+  have hr := readRet_plain f.body h.2
+  unfold readFunc plainBody
+  simp only [qnameOf_plainQ h.1, sOptSb, sOptIj, beq_self_eq_true, if_true]
+  cases hopt : f.optional
+  · simp [readBody, hr, canonF, hopt]
+  · simp [optDefault, readBody, hr, canonF, hopt]
+
+/-- the text of a function of the image, read by the grammar as a program, is that function (in canonical form) -/
+theorem jsparse_render_func (f : JsFunc) (ind : Nat) (h : ImgF f) :
+    jsParseFile (printPieces (renderFunc false ind f)) = some [canonF f] := by
+  have hl := lexF f ind h []
+  simp only [List.append_nil, jsLex_nil] at hl
+  unfold jsParseFile
+  rw [hl]
+  simp only [pre, Option.map_some, List.append_nil]
+  have := parseProgram_tk [plainF f] (fun x hx => by simp only [List.mem_singleton] at hx; subst hx; exact wfF f h)
+  simp only [tkTops, List.append_nil] at this
+  rw [this]
+  simp [readProgram, plainF, readF f h]
+
+theorem lexFs : ∀ (fs : List JsFunc), (∀ f ∈ fs, ImgF f) → ∀ (rest : Bytes),
+    jsLex (printPieces (fs.flatMap (renderFunc false 0)) ++ rest) = pre (tkTops (fs.map plainF)) (jsLex rest)
+  | [], _, rest => by simp [printPieces_nil, tkTops]
+  | f :: r, h, rest => by
+    simp only [List.flatMap_cons, printPieces_append, List.append_assoc, List.map_cons, tkTops]
+    rw [lexF f 0 (h f (List.mem_cons_self ..)), lexFs r (fun x hx => h x (List.mem_cons_of_mem _ hx)), pre_pre]
+
+theorem readProgram_funcs : ∀ (fs : List JsFunc), (∀ f ∈ fs, ImgF f) → readProgram (fs.map plainF) = some (fs.map canonF)
+  | [], _ => rfl
+  | f :: r, h => by
+    simp [readProgram, plainF, readF f (h f (List.mem_cons_self ..)),
+      readProgram_funcs r (fun x hx => h x (List.mem_cons_of_mem _ hx))]
+
+/-- … and so is the text of the functions of a file, one after the other -/
+theorem jsparse_render_funcs (fs : List JsFunc) (h : ∀ f ∈ fs, ImgF f) :
+    jsParseFile (printPieces (fs.flatMap (renderFunc false 0))) = some (fs.map canonF) := by
+  have hl := lexFs fs h []
+  simp only [List.append_nil, jsLex_nil] at hl
+  unfold jsParseFile
+  rw [hl]
+  simp only [pre, Option.map_some, List.append_nil]
+  rw [parseProgram_tk (fs.map plainF) (fun x hx => by
+    simp only [List.mem_map] at hx
+    obtain ⟨f, hf, rfl⟩ := hx
+    exact wfF f (h f hf))]
+  exact readProgram_funcs fs h
 
 end SoyVerif.Props.C14c
